@@ -37,6 +37,7 @@ var pairedTracers = []tracerKind{
 	{"json", `{"EnableMemory":true,"EnableReturnData":true}`},
 	{"json", `{"DisableStack":true}`},
 	{"accesslist", ``},
+	{"accesslist", `seeded`},
 	{"callTracer", `{}`},
 	{"callTracer", `{"onlyTopCall":true}`},
 	{"callTracer", `{"withLog":true}`},
@@ -151,8 +152,32 @@ func runTracerPair(dc DualCase, k tracerKind) (fout, rout string, err error) {
 		fget = func() string { return fbuf.String() }
 		rget = func() string { return rbuf.String() }
 	case "accesslist":
-		a := alogger.NewAccessListTracer(nil, dc.Tx.From, dc.Tx.To, avm.ActivePrecompiles(rulesF))
-		b := elogger.NewAccessListTracer(nil, dc.Tx.From, dc.Tx.To, evm.ActivePrecompiles(rulesF))
+		var seedList types.AccessList
+		if k.cfg == "seeded" {
+			// the list a caller already has (eth_createAccessList iterates): entries with storage keys for the
+			// sender, the recipient, a precompile, the coinbase and third parties, one address listed twice
+			seedList = types.AccessList{
+				{Address: dc.Tx.From, StorageKeys: []common.Hash{{31: 1}, {31: 2}}},
+				{Address: dc.Tx.To, StorageKeys: []common.Hash{{31: 0}, {31: 1}, {0: 0xff}}},
+				{Address: common.BytesToAddress([]byte{2}), StorageKeys: []common.Hash{{31: 9}}},
+				{Address: h.ContractAddr(1), StorageKeys: []common.Hash{{31: 3}}},
+				{Address: h.Coinbase},
+				{Address: h.Nobody, StorageKeys: []common.Hash{{31: 4}, {31: 4}}},
+				{Address: h.ContractAddr(1), StorageKeys: []common.Hash{{31: 5}}},
+			}
+		}
+		cp := func() types.AccessList {
+			out := make(types.AccessList, len(seedList))
+			for i, t := range seedList {
+				out[i] = types.AccessTuple{Address: t.Address, StorageKeys: append([]common.Hash(nil), t.StorageKeys...)}
+			}
+			if seedList == nil {
+				return nil
+			}
+			return out
+		}
+		a := alogger.NewAccessListTracer(cp(), dc.Tx.From, dc.Tx.To, avm.ActivePrecompiles(rulesF))
+		b := elogger.NewAccessListTracer(cp(), dc.Tx.From, dc.Tx.To, evm.ActivePrecompiles(rulesF))
 		ft, rt = a, b
 		// AccessList() ranges over a map in both implementations: compare as a sorted list
 		canon := func(al types.AccessList) string {
